@@ -121,7 +121,7 @@ class Gen:
     def read(self):
         r = self.r
         op = r.choice(self.focus.get("reads") or
-                      ["search", "count", "contains", "get", "select", "all", "len", "iter", "get_measurements",
+                      ["search", "count", "contains", "get", "select", "all", "len", "iter", "repr", "get_measurements",
                        "get_tag_keys", "get_tag_values", "get_field_keys", "get_field_values", "get_timestamps"])
         a = {"op": op}
         if op in ("search", "count", "contains", "get", "select"):
@@ -137,7 +137,7 @@ class Gen:
             a["keys"] = ks
             a["scalar"] = r.randrange(2)
         self.adapt(a, 0.4)
-        if op in ("all", "len", "iter"):
+        if op in ("all", "len", "iter", "repr"):
             a["m"] = self.meas(0.6)
             if a["m"] != NONE:
                 a["via"] = "handle"          # only the handle has per-measurement all/len/iter
@@ -312,7 +312,7 @@ class Gen:
             ops.append(a)
             for _ in range(r.choice([2, 3, 4])):
                 m2 = r.randrange(3)
-                kind = r.choice(["search", "get", "count", "get_timestamps", "get_tag_values", "get_field_values", "select", "len"])
+                kind = r.choice(["search", "get", "count", "get_timestamps", "get_tag_values", "get_field_values", "select", "len", "repr"])
                 q = self.atom()
                 b = {"op": kind, "m": m2}
                 if kind in ("search", "get", "count", "select"):
@@ -325,7 +325,7 @@ class Gen:
                     b["keys"] = []
                 if kind == "get_field_values":
                     b["key"] = r.randrange(1, self.nfk + 1)
-                if kind == "len" or r.random() < 0.5:
+                if kind in ("len", "repr") or r.random() < 0.5:
                     b["via"] = "handle"
                 ops.append(b)
             ops.append({"op": "insert", "p": self.point(t), "m": NONE, "compact": 0})
@@ -365,3 +365,18 @@ class Gen:
 
     def battery(self, k=5):
         return [self.query(self.r.choice([0, 0, 1, 2])) for _ in range(k)]
+
+
+def deregex(x):
+    """replace every regex pattern in the operations by the universal one: themes whose strings are not
+    the plain ones do not realise the specification's regex tables"""
+    if isinstance(x, list):
+        for y in x:
+            deregex(y)
+    elif isinstance(x, dict):
+        if x.get("op") in ("matches", "search") and "k" in x:
+            x["v"] = 3
+        for y in x.values():
+            if isinstance(y, (dict, list)):
+                deregex(y)
+    return x
